@@ -1,5 +1,6 @@
 import DendroModel.Model.C07
 import DendroModel.Theory.C07Path
+import DendroModel.Theory.C07Perm
 import DendroModel.Theory.C17Frac
 import DendroModel.Theory.Reseed
 import Mathlib.Tactic
@@ -1267,5 +1268,718 @@ theorem reseed_root_shape (tgt : Nat) (t : T) (hne : t.id ≠ tgt) (h : contains
 
 example : ∃ up, (invertTo 1 exTree).cs = [.node 2 (some 0) (some ⟨1, 1⟩) none [], .node 3 (some 1) (some ⟨1, 1⟩) none [], up]
     ∧ up.len = some ⟨1, 1⟩ := ⟨_, rfl, rfl⟩
+
+end DendroModel.C07
+
+namespace DendroModel.C07.Aux
+open DendroModel DendroModel.C07 DendroModel.C07.Path
+
+theorem toLTL_eq_map (cs : List T) : toLTL cs = cs.map toLT := by
+  induction cs with
+  | nil => rfl
+  | cons c cs ih => simp [toLTL, ih]
+
+theorem toLTL_perm {a b : List T} (h : a.Perm b) : (toLTL a).Perm (toLTL b) := by
+  rw [toLTL_eq_map, toLTL_eq_map]; exact h.map _
+
+/-- what re-ordering children (at any depth) keeps, node by node -/
+structure PermInv (t r : T) : Prop where
+  down : ∀ a, down (toLT r) a = down (toLT t) a
+  dist : ∀ a b, Path.dist (toLT r) a b = Path.dist (toLT t) a b
+  leaves : (leaves (toLT r)).Perm (leaves (toLT t))
+
+theorem map_permInv (f : T → T) : ∀ cs : List T, (∀ c ∈ cs, PermInv c (f c)) →
+    (∀ a, downL (toLTL (cs.map f)) a = downL (toLTL cs) a) ∧
+    (∀ a b, distL (toLTL (cs.map f)) a b = distL (toLTL cs) a b) ∧
+    (leavesL (toLTL (cs.map f))).Perm (leavesL (toLTL cs))
+  | [], _ => ⟨fun _ => rfl, fun _ _ => rfl, List.Perm.refl _⟩
+  | c :: cs, h => by
+    have hc := h c (List.mem_cons_self ..)
+    obtain ⟨i1, i2, i3⟩ := map_permInv f cs (fun d hd => h d (List.mem_cons_of_mem _ hd))
+    refine ⟨?_, ?_, ?_⟩
+    · intro a; simp only [List.map_cons, toLTL, downL, hc.down, i1]
+    · intro a b; simp only [List.map_cons, toLTL, distL, hc.down, hc.dist, i1, i2]
+    · simp only [List.map_cons, toLTL, leavesL]; exact hc.leaves.append i3
+
+theorem nodup_child {cs : List T} (hnd : (leavesL (toLTL cs)).Nodup) {c : T} (hc : c ∈ cs) : (leaves (toLT c)).Nodup := by
+  induction cs with
+  | nil => simp at hc
+  | cons d ds ih =>
+    simp only [toLTL, leavesL] at hnd
+    rcases List.mem_cons.mp hc with rfl | h
+    · exact (List.nodup_append.mp hnd).1
+    · exact ih (List.nodup_append.mp hnd).2.1 h
+
+/-- sorting the child list of every node, by whatever order relation, keeps `down`, `dist` and the leaves -/
+theorem sorted_tree_paths (f : T → T) (before : T → T → Bool)
+    (hf : ∀ i x l s cs, f (.node i x l s cs) = .node i x l s (sortStable before (cs.map f))) :
+    ∀ (n : Nat) (t : T), t.size ≤ n → (leaves (toLT t)).Nodup → PermInv t (f t)
+  | 0, .node i x l s cs, h, _ => by simp [T.size] at h
+  | n + 1, .node i x l s cs, h, hnd => by
+    rw [hf]
+    by_cases hcs : cs = []
+    · subst hcs; exact ⟨fun _ => rfl, fun _ _ => rfl, List.Perm.refl _⟩
+    · rw [toLT_node_ne hcs] at hnd
+      simp only [Path.leaves] at hnd
+      have ih : ∀ c ∈ cs, PermInv c (f c) := fun c hc =>
+        sorted_tree_paths f before hf n c (by have := size_lt_of_mem hc; simp only [T.size] at h; omega) (nodup_child hnd hc)
+      obtain ⟨m1, m2, m3⟩ := map_permInv f cs ih
+      have hp := toLTL_perm (sortStable_perm before (cs.map f))
+      have hnd2 : (leavesL (toLTL (sortStable before (cs.map f)))).Nodup :=
+        ((leavesL_perm_LT hp).trans m3).nodup_iff.mpr hnd
+      have hne : sortStable before (cs.map f) ≠ [] := by
+        intro h0
+        have := (sortStable_perm before (cs.map f)).length_eq
+        rw [h0] at this; simp at this; exact hcs (List.length_eq_zero_iff.mp this.symm)
+      refine ⟨?_, ?_, ?_⟩
+      · intro a; rw [toLT_node_ne hne, toLT_node_ne hcs]; simp only [Path.down, downL_perm hp hnd2 a, m1]
+      · intro a b; rw [toLT_node_ne hne, toLT_node_ne hcs]; simp only [Path.dist, distL_perm hp hnd2 a b, m2]
+      · rw [toLT_node_ne hne, toLT_node_ne hcs]; simp only [Path.leaves]; exact (leavesL_perm_LT hp).trans m3
+
+end DendroModel.C07.Aux
+
+namespace DendroModel.C07
+open DendroModel DendroModel.C07.Aux
+
+theorem keeps_of_permInv {t r : T} (h : PermInv t r) (htot : totalQ r = totalQ t) : Keeps t r :=
+  ⟨by rw [leafIds_eq_leaves, leafIds_eq_leaves]; exact h.leaves, htot,
+   fun a b _ _ => by rw [pathLen_eq_dist, h.dist, ← pathLen_eq_dist]⟩
+
+/-- **`ladderize` keeps the leaves, the total length and every leaf-to-leaf path length** (both directions, every tree
+    with distinct leaf ids) -/
+theorem ladderize_invariant (asc : Bool) (t : T) (hnd : (leafIds t).Nodup) : Keeps t (ladderize asc t) :=
+  keeps_of_permInv
+    (sorted_tree_paths (ladderize asc) _ (fun i x l s cs => by rw [ladderize, ladderizeL_eq_map]) t.size t (Nat.le_refl _)
+      (by rw [← leafIds_eq_leaves]; exact hnd))
+    (ladderize_invariant_partial asc t).2
+
+theorem reorder_invariant (asc : Bool) (t : T) (hnd : (leafIds t).Nodup) : Keeps t (reorder asc t) :=
+  keeps_of_permInv
+    (sorted_tree_paths (reorder asc) _ (fun i x l s cs => by rw [reorder, reorderL_eq_map]) t.size t (Nat.le_refl _)
+      (by rw [← leafIds_eq_leaves]; exact hnd))
+    (reorder_invariant_partial asc t).2
+
+/-- `randomly_rotate`, whatever the recorded shuffles -/
+theorem rotate_invariant (rank : Nat → Nat) (t : T) (hnd : (leafIds t).Nodup) : Keeps t (rotate rank t) :=
+  keeps_of_permInv
+    (sorted_tree_paths (rotate rank) _ (fun i x l s cs => by rw [rotate, rotateL_eq_map]) t.size t (Nat.le_refl _)
+      (by rw [← leafIds_eq_leaves]; exact hnd))
+    (rotate_invariant_partial rank t).2
+
+example : (leafIds exTree).Nodup := by decide
+example : pathLen (ladderize false exTree) 2 4 = pathLen exTree 2 4 :=
+  (ladderize_invariant false exTree (by decide)).paths 2 4 (by decide) (by decide)
+
+end DendroModel.C07
+
+namespace DendroModel.C07.Aux
+open DendroModel DendroModel.C07 DendroModel.C07.Path
+
+/-- ids of all nodes, pre-order -/
+def idsOf (t : T) : List Nat := t.nodes.map T.id
+def idsOfL (cs : List T) : List Nat := (T.nodesL cs).map T.id
+
+theorem idsOf_node (i : Nat) (x : Option Nat) (l : Option Frac) (s : Option String) (cs : List T) :
+    idsOf (.node i x l s cs) = i :: idsOfL cs := by simp [idsOf, idsOfL, T.nodes, T.id]
+
+theorem idsOfL_cons (c : T) (cs : List T) : idsOfL (c :: cs) = idsOf c ++ idsOfL cs := by
+  simp [idsOf, idsOfL, T.nodesL]
+
+theorem idsOfL_append (a b : List T) : idsOfL (a ++ b) = idsOfL a ++ idsOfL b := by
+  simp [idsOfL, nodesL_append]
+
+theorem step_ids {t u : T} (h : Step t u) : (idsOf u).Perm (idsOf t) := by
+  cases h with
+  | mk i x l s pre j y lc sc ds post hds hrest =>
+    have key : ∀ (D P Q : List Nat), (j :: (D ++ i :: (P ++ Q))).Perm (i :: (P ++ ((j :: D) ++ Q))) := by
+      intro D P Q
+      have h1 : (j :: (D ++ i :: (P ++ Q))).Perm (i :: ((j :: D) ++ (P ++ Q))) := by
+        have := (List.perm_middle (a := i) (l₁ := j :: D) (l₂ := P ++ Q))
+        simpa using this
+      refine h1.trans (List.Perm.cons i ?_)
+      rw [← List.append_assoc, ← List.append_assoc]
+      exact List.Perm.append_right _ List.perm_append_comm
+    have hnil : idsOfL [] = [] := rfl
+    simp only [idsOf_node, idsOfL_append, idsOfL_cons, hnil, List.append_nil]
+    simpa using key (idsOfL ds) (idsOfL pre) (idsOfL post)
+
+theorem reach_ids {t r : T} (h : Reach t r) : (idsOf r).Perm (idsOf t) := by
+  induction h with
+  | refl _ => exact List.Perm.refl _
+  | step st _ ih => exact ih.trans (step_ids st)
+
+theorem childIds_sublist : ∀ cs : List T, (cs.map T.id).Sublist (idsOfL cs)
+  | [] => List.Sublist.slnil
+  | c :: cs => by
+    rw [idsOfL_cons]
+    cases c with
+    | node i x l s ds =>
+      simp only [List.map_cons, idsOf_node, T.id, List.cons_append]
+      exact List.Sublist.cons_cons _ ((childIds_sublist cs).trans (List.sublist_append_right _ _))
+
+mutual
+theorem leaves_sublist_nodes : ∀ t : T, t.leaves.Sublist t.nodes
+  | .node i x l s [] => by simp [T.leaves, T.nodes, T.nodesL]
+  | .node i x l s (c :: cs) => by
+    simp only [T.leaves, T.nodes]
+    exact List.Sublist.cons _ (leavesL_sublist_nodesL (c :: cs))
+theorem leavesL_sublist_nodesL : ∀ cs : List T, (T.leavesL cs).Sublist (T.nodesL cs)
+  | [] => List.Sublist.slnil
+  | c :: cs => by
+    simp only [T.leavesL, T.nodesL]
+    exact (leaves_sublist_nodes c).append (leavesL_sublist_nodesL cs)
+end
+
+theorem leafIds_nodup_of_ids {t : T} (h : (idsOf t).Nodup) : (leafIds t).Nodup :=
+  ((leaves_sublist_nodes t).map T.id).nodup h
+
+mutual
+theorem parentOf_spec (og : Nat) : ∀ (t : T) (p : Nat), parentOf og t = some p → ∃ m ∈ t.nodes, m.id = p ∧ m.cs ≠ []
+  | .node i x l s cs, p, h => by
+    simp only [parentOf] at h
+    rcases parentOfL_spec og i cs p h with ⟨hp, hne⟩ | ⟨m, hm, h1, h2⟩
+    · exact ⟨.node i x l s cs, mem_nodes_self _, by simpa [T.id] using hp.symm, by simpa [T.cs] using hne⟩
+    · exact ⟨m, by simp only [T.nodes]; exact List.mem_cons_of_mem _ hm, h1, h2⟩
+theorem parentOfL_spec (og : Nat) (q : Nat) : ∀ (cs : List T) (p : Nat), parentOfL og q cs = some p →
+    (p = q ∧ cs ≠ []) ∨ ∃ m ∈ T.nodesL cs, m.id = p ∧ m.cs ≠ []
+  | [], _, h => by simp [parentOfL] at h
+  | c :: cs, p, h => by
+    simp only [parentOfL] at h
+    split at h
+    · cases h; exact Or.inl ⟨rfl, by simp⟩
+    · split at h
+      · rename_i r hr
+        cases h
+        obtain ⟨m, hm, h1, h2⟩ := parentOf_spec og c p hr
+        exact Or.inr ⟨m, by simp only [T.nodesL]; exact List.mem_append_left _ hm, h1, h2⟩
+      · rcases parentOfL_spec og q cs p h with ⟨hp, _⟩ | ⟨m, hm, h1, h2⟩
+        · exact Or.inl ⟨hp, by simp⟩
+        · exact Or.inr ⟨m, by simp only [T.nodesL]; exact List.mem_append_right _ hm, h1, h2⟩
+end
+
+/-- with distinct node ids, "the node with id `p`" is well defined: if one node with that id is internal, all are -/
+theorem hint_of_ids {t : T} (hids : (idsOf t).Nodup) {p : Nat} {m : T} (hm : m ∈ t.nodes) (hp : m.id = p) (hne : m.cs ≠ []) :
+    ∀ n ∈ t.nodes, n.id = p → n.cs ≠ [] := by
+  intro n hn hnp
+  have : n = m := List.inj_on_of_nodup_map hids hn hm (hnp.trans hp.symm)
+  rw [this]; exact hne
+
+theorem front_perm (og : Nat) : ∀ (cs : List T) (o : T), (cs.map T.id).Nodup → cs.find? (fun c => c.id == og) = some o →
+    (o :: cs.filter (fun c => c.id != og)).Perm cs
+  | [], _, _, h => by simp at h
+  | c :: cs, o, hnd, h => by
+    simp only [List.map_cons, List.nodup_cons] at hnd
+    by_cases hc : c.id = og
+    · have hb : (c.id == og) = true := by simpa using hc
+      have hb' : (c.id != og) = false := by simp [hc]
+      simp only [List.find?_cons, hb, Option.some.injEq] at h
+      subst h
+      have : (c :: cs).filter (fun c => c.id != og) = cs := by
+        simp only [List.filter_cons, hb']
+        apply List.filter_eq_self.mpr
+        intro d hd
+        have : d.id ≠ og := by
+          intro hdo; exact hnd.1 (List.mem_map.mpr ⟨d, hd, hdo.trans hc.symm⟩)
+        simpa using this
+      rw [this]
+    · have hb : (c.id == og) = false := by simpa using hc
+      have hb' : (c.id != og) = true := by simp [hc]
+      simp only [List.find?_cons, hb] at h
+      have ih := front_perm og cs o hnd.2 h
+      have : (c :: cs).filter (fun c => c.id != og) = c :: cs.filter (fun c => c.id != og) := by
+        simp only [List.filter_cons, hb']; rfl
+      rw [this]
+      exact (List.Perm.swap c o _).trans (ih.cons c)
+
+theorem mem_nodesL {n : T} : ∀ {cs : List T}, n ∈ T.nodesL cs ↔ ∃ c ∈ cs, n ∈ c.nodes
+  | [] => by simp [T.nodesL]
+  | d :: ds => by
+    simp only [T.nodesL, List.mem_append, List.mem_cons, exists_eq_or_imp, mem_nodesL (cs := ds)]
+
+/-- the clean-up of `to_outgroup_position` / `reseed_at`, whatever decides the collapse -/
+theorem cleanup_gen (doC s : Bool) (t : T) (hwf : LenWF t) (hnd : (leafIds t).Nodup) :
+    let t1 := if doC then collapseBasal t else t
+    let r := if s then sup t1 else t1
+    leafIds r = leafIds t ∧ totalQ r = totalQ t ∧ ∀ a b, pathLen r a b = pathLen t a b := by
+  have R : RootInv t (if doC then collapseBasal t else t) := by
+    split
+    · exact collapse_inv t hwf hnd
+    · exact ⟨rfl, rfl, fun _ _ => rfl, hwf⟩
+  intro t1 r
+  show leafIds (if s then sup t1 else t1) = _ ∧ totalQ (if s then sup t1 else t1) = _ ∧ ∀ a b, pathLen (if s then sup t1 else t1) a b = _
+  cases s
+  · simp only [Bool.false_eq_true, if_false]
+    exact ⟨R.ids, R.total, R.paths⟩
+  · simp only [if_true]
+    have S := sup_inv t1 R.wf
+    refine ⟨?_, S.total.trans R.total, ?_⟩
+    · rw [leafIds_eq_leaves, S.leaves, ← leafIds_eq_leaves, R.ids]
+    · intro a b; rw [pathLen_eq_dist, S.dist, ← pathLen_eq_dist, R.paths]
+
+end DendroModel.C07.Aux
+
+namespace DendroModel.C07
+open DendroModel DendroModel.C07.Aux DendroModel.C07.Path
+
+/-- **`to_outgroup_position` keeps the leaves, the total length and every leaf-to-leaf path length**, for every rooting flag
+    and both `suppress_unifurcations` settings — every tree with distinct node ids, a seed with at least two children and
+    well-formed fractions, every outgroup node (leaf or internal) other than the seed. -/
+theorem to_outgroup_invariant (flag : Option Bool) (suppress : Bool) (og : Nat) (t : T) (r : T × Option Bool)
+    (h : toOutgroup flag suppress og t = some r)
+    (hids : (idsOf t).Nodup) (h2 : 2 ≤ t.cs.length) (hwf : LenWF t) : Keeps t r.1 := by
+  have hnd : (leafIds t).Nodup := leafIds_nodup_of_ids hids
+  unfold toOutgroup at h
+  split at h
+  · cases h
+  · rename_i p hp
+    obtain ⟨m, hm, hmp, hmne⟩ := parentOf_spec og t p hp
+    have hint := hint_of_ids hids hm hmp hmne
+    have hr := invert_is_chain p t hint h2
+    obtain ⟨pl, tot, pth⟩ := reach_inv hr
+    have pid : (leafIds (invertTo p t)).Perm (leafIds t) := pl.map T.id
+    have hids2 : (idsOf (invertTo p t)).Nodup := (reach_ids hr).nodup_iff.mpr hids
+    have hwf2 := reach_lenWF hr hwf
+    have hnd2 : (leafIds (invertTo p t)).Nodup := pid.nodup_iff.mpr hnd
+    split at h
+    rename_i i x l s cs heq
+    rw [heq] at pid hids2 hwf2 hnd2 tot pth
+    split at h
+    · cases h
+    · rename_i o ho
+      cases h
+      -- the outgroup moved to the front of the root's child list
+      have hchild : (cs.map T.id).Nodup := by
+        rw [idsOf_node] at hids2
+        exact (childIds_sublist cs).nodup (List.nodup_cons.mp hids2).2
+      have P := front_perm og cs o hchild ho
+      by_cases hcs : cs = []
+      · subst hcs; simp at ho
+      have hne' : o :: cs.filter (fun c => c.id != og) ≠ [] := by simp
+      set cs' := o :: cs.filter (fun c => c.id != og) with hcs'
+      have hl2 : leafIds (T.node i x l s cs') = leavesL (toLTL cs') := leafIds_eq_LT _ (by simpa [T.cs] using hne')
+      have hl1 : leafIds (T.node i x l s cs) = leavesL (toLTL cs) := leafIds_eq_LT _ (by simpa [T.cs] using hcs)
+      have lp : (leafIds (T.node i x l s cs')).Perm (leafIds (T.node i x l s cs)) := by
+        rw [hl2, hl1]; exact leavesL_perm_LT (toLTL_perm P)
+      have hnd3 : (leafIds (T.node i x l s cs')).Nodup := lp.nodup_iff.mpr hnd2
+      have hwf3 : LenWF (T.node i x l s cs') := by
+        intro n hn f hf
+        simp only [T.nodes, List.mem_cons] at hn
+        rcases hn with rfl | hn
+        · exact hwf2 (T.node i x l s cs) (mem_nodes_self _) f (by simpa [T.len] using hf)
+        · obtain ⟨c, hc, hnc⟩ := mem_nodesL.mp hn
+          exact hwf2 n (by simp only [T.nodes]; exact List.mem_cons_of_mem _ (mem_nodesL.mpr ⟨c, P.mem_iff.mp hc, hnc⟩)) f hf
+      have paths3 : ∀ a b, pathLen (T.node i x l s cs') a b = pathLen (T.node i x l s cs) a b := by
+        intro a b
+        simp only [pathLen, T.cs]
+        exact distL_perm (toLTL_perm P) (by rw [← hl2]; exact hnd3) a b
+      have tot3 : totalQ (T.node i x l s cs') = totalQ (T.node i x l s cs) := by
+        simp only [totalQ, totalQL_perm P]
+      obtain ⟨c1, c2, c3⟩ := cleanup_gen (sisterCollapses (unrootedFlag flag) cs') suppress (T.node i x l s cs') hwf3 hnd3
+      refine ⟨?_, ?_, ?_⟩
+      · show (leafIds (if suppress = true then sup _ else _)).Perm _
+        rw [c1]; exact lp.trans pid
+      · show totalQ (if suppress = true then sup _ else _) = _
+        rw [c2, tot3, tot]
+      · intro a b ha hb
+        show pathLen (if suppress = true then sup _ else _) a b = _
+        rw [c3, paths3, pth hnd a b ha hb]
+
+example : ∃ r, toOutgroup (some false) true 4 exTree = some r ∧ (idsOf exTree).Nodup ∧ 2 ≤ exTree.cs.length := ⟨_, rfl, by decide, by decide⟩
+
+end DendroModel.C07
+
+namespace DendroModel.C07.Aux
+open DendroModel DendroModel.C07 DendroModel.C07.Path
+
+theorem splitEdgeL_eq_map (h nw : Nat) (lT lH : Option Frac) : ∀ cs : List T,
+    splitEdgeL h nw lT lH cs = cs.map (splitEdge h nw lT lH)
+  | [] => by simp [splitEdgeL]
+  | c :: cs => by simp [splitEdgeL, splitEdgeL_eq_map h nw lT lH cs]
+
+theorem idsOf_child_nodup {cs : List T} (hnd : (idsOfL cs).Nodup) {c : T} (hc : c ∈ cs) : (idsOf c).Nodup := by
+  induction cs with
+  | nil => simp at hc
+  | cons d ds ih =>
+    rw [idsOfL_cons] at hnd
+    rcases List.mem_cons.mp hc with rfl | h
+    · exact (List.nodup_append.mp hnd).1
+    · exact ih (List.nodup_append.mp hnd).2.1 h
+
+theorem mem_idsOf_of_mem_nodes {t n : T} (h : n ∈ t.nodes) : n.id ∈ idsOf t := List.mem_map.mpr ⟨n, h, rfl⟩
+
+/-- everything the edge split keeps or guarantees, node by node (`lT + lH` = the length of the split edge) -/
+structure SplitOK (h nw : Nat) (lT lH : Option Frac) (t r : T) : Prop where
+  perm : PermInv t r
+  total : totalQ r = totalQ t
+  wf : LenWF r
+  len : r.len = t.len
+  id : r.id = t.id
+  ncs : r.cs.length = t.cs.length
+  fresh : ∀ n ∈ r.nodes, n.id = nw → ∃ c ∈ t.nodes, c.id = h ∧ n = .node nw none lT none [c.withLen lH]
+
+theorem nodes_withLen (c : T) (m : Option Frac) : ∀ n ∈ (c.withLen m).nodes, n = c.withLen m ∨ n ∈ T.nodesL c.cs := by
+  cases c with
+  | node i x l s cs => intro n hn; simpa [T.withLen, T.nodes, T.cs] using hn
+
+theorem splitEdge_ok (h nw : Nat) (lT lH : Option Frac) (hlT : OWF lT) (hlH : OWF lH) :
+    ∀ (k : Nat) (t : T), t.size ≤ k → (idsOf t).Nodup → nw ∉ idsOf t → LenWF t →
+      (∀ c ∈ t.nodes, c.id = h → lenQ lT + lenQ lH = lenQ c.len) → SplitOK h nw lT lH t (splitEdge h nw lT lH t)
+  | 0, .node i x l s cs, hk, _, _, _, _ => by simp [T.size] at hk
+  | k + 1, .node i x l s cs, hk, hids, hfr, hwf, hsum => by
+    have hleaf : (leaves (toLT (.node i x l s cs))).Nodup := by
+      rw [← leafIds_eq_leaves]; exact leafIds_nodup_of_ids hids
+    rw [idsOf_node] at hids hfr
+    have hidsL := (List.nodup_cons.mp hids).2
+    have hi : i ≠ nw := fun e => hfr (by simp [e])
+    have hfrL : nw ∉ idsOfL cs := fun e => hfr (List.mem_cons_of_mem _ e)
+    rw [splitEdge]
+    split
+    · -- the head is a child of this node
+      rename_i c hc
+      have hcmem : c ∈ cs := List.mem_of_find?_eq_some hc
+      have hcid : c.id = h := by simpa using List.find?_some hc
+      have hcs : cs ≠ [] := by intro e; subst e; simp at hc
+      have P := front_perm h cs c ((childIds_sublist cs).nodup hidsL) hc
+      set rest := cs.filter (fun c => c.id != h) with hrest
+      set N : T := .node nw none lT none [c.withLen lH] with hN
+      have hcnode : c ∈ T.nodes (.node i x l s cs) := by
+        simp only [T.nodes]; exact List.mem_cons_of_mem _ (mem_nodesL.mpr ⟨c, hcmem, mem_nodes_self c⟩)
+      have hlen := hsum c hcnode hcid
+      have hwc : LenWF c := lenWF_child hwf hcmem
+      -- N behaves like c
+      have hNdown : ∀ a, down (toLT N) a = down (toLT c) a := by
+        intro a
+        simp only [hN, toLT, toLTL, Path.down, downL_single, down_withLen, Option.map_map]
+        cases down (toLT c) a with
+        | none => rfl
+        | some d => simp only [Option.map_some, Function.comp, Option.some.injEq]; linarith
+      have hNdist : ∀ a b, Path.dist (toLT N) a b = Path.dist (toLT c) a b := by
+        intro a b; simp only [hN, toLT, toLTL, Path.dist, distL_single, dist_withLen]
+      have hNleaves : leaves (toLT N) = leaves (toLT c) := by
+        simp only [hN, toLT, toLTL, Path.leaves, Path.leavesL, leaves_withLen, List.append_nil]
+      have hne1 : rest ++ [N] ≠ [] := by simp
+      -- lists: rest ++ [N]  ~  N :: rest  ≈  c :: rest  ~  cs
+      have p1 : (toLTL (rest ++ [N])).Perm (toLTL (N :: rest)) := toLTL_perm (by simpa using List.perm_append_comm)
+      have p2 : (toLTL (c :: rest)).Perm (toLTL cs) := toLTL_perm P
+      rw [toLT_node_ne hcs] at hleaf
+      simp only [Path.leaves] at hleaf
+      have nd2 : (leavesL (toLTL (c :: rest))).Nodup := (leavesL_perm_LT p2).nodup_iff.mpr hleaf
+      have nd1' : (leavesL (toLTL (N :: rest))).Nodup := by
+        simp only [toLTL, leavesL, hNleaves] at nd2 ⊢; exact nd2
+      have nd1 : (leavesL (toLTL (rest ++ [N]))).Nodup := (leavesL_perm_LT p1).nodup_iff.mpr nd1'
+      have eD : ∀ a, downL (toLTL (rest ++ [N])) a = downL (toLTL cs) a := by
+        intro a
+        rw [downL_perm p1 nd1 a, ← downL_perm p2 nd2 a]
+        simp only [toLTL, downL, hNdown]
+      have eT : ∀ a b, distL (toLTL (rest ++ [N])) a b = distL (toLTL cs) a b := by
+        intro a b
+        rw [distL_perm p1 nd1 a b, ← distL_perm p2 nd2 a b]
+        simp only [toLTL, distL, hNdown, hNdist]
+      have eL : (leavesL (toLTL (rest ++ [N]))).Perm (leavesL (toLTL cs)) := by
+        refine (leavesL_perm_LT p1).trans (List.Perm.trans ?_ (leavesL_perm_LT p2))
+        simp only [toLTL, leavesL, hNleaves]; exact List.Perm.refl _
+      refine ⟨⟨?_, ?_, ?_⟩, ?_, ?_, rfl, rfl, ?_, ?_⟩
+      · intro a; rw [toLT_node_ne hne1, toLT_node_ne hcs]; simp only [Path.down, eD]
+      · intro a b; rw [toLT_node_ne hne1, toLT_node_ne hcs]; simp only [Path.dist, eT]
+      · rw [toLT_node_ne hne1, toLT_node_ne hcs]; simp only [Path.leaves]; exact eL
+      · simp only [totalQ, totalQL_append, totalQL, hN, totalQ_withLen]
+        rw [← totalQL_perm P]; simp only [totalQL]; linarith
+      · -- LenWF
+        intro n hn f hf
+        simp only [hN, T.nodes, nodesL_append, T.nodesL, List.append_nil, List.mem_cons, List.mem_append] at hn
+        rcases hn with rfl | hn | rfl | hn
+        · exact hwf _ (mem_nodes_self _) f (by simpa [T.len] using hf)
+        · obtain ⟨d, hd, hnd'⟩ := mem_nodesL.mp hn
+          have hd' : d ∈ cs := (List.mem_filter.mp hd).1
+          exact hwf n (by simp only [T.nodes]; exact List.mem_cons_of_mem _ (mem_nodesL.mpr ⟨d, hd', hnd'⟩)) f hf
+        · exact hlT f (by simpa [T.len] using hf)
+        · rcases nodes_withLen c lH n hn with rfl | hn
+          · cases c with
+            | node j y lc sc ds => exact hlH f (by simpa [T.withLen, T.len] using hf)
+          · exact hwc n (by cases c with | node j y lc sc ds => simp only [T.nodes]; exact List.mem_cons_of_mem _ hn) f hf
+      · simp only [T.cs, List.length_append, List.length_singleton]
+        have := P.length_eq; simp only [List.length_cons] at this; omega
+      · -- fresh id
+        intro n hn hnid
+        simp only [hN, T.nodes, nodesL_append, T.nodesL, List.append_nil, List.mem_cons, List.mem_append] at hn
+        rcases hn with rfl | hn | rfl | hn
+        · exact absurd hnid hi
+        · obtain ⟨d, hd, hnd'⟩ := mem_nodesL.mp hn
+          have hd' : d ∈ cs := (List.mem_filter.mp hd).1
+          have : n.id ∈ idsOfL cs := List.mem_map.mpr ⟨n, mem_nodesL.mpr ⟨d, hd', hnd'⟩, rfl⟩
+          exact absurd (hnid ▸ this) hfrL
+        · exact ⟨c, hcnode, hcid, rfl⟩
+        · have hcin : ∀ m ∈ c.nodes, m.id ∈ idsOfL cs := fun m hm =>
+            List.mem_map.mpr ⟨m, mem_nodesL.mpr ⟨c, hcmem, hm⟩, rfl⟩
+          rcases nodes_withLen c lH n hn with rfl | hn
+          · have : (c.withLen lH).id = c.id := by cases c; rfl
+            exact absurd ((this ▸ hnid) ▸ hcin c (mem_nodes_self c)) hfrL
+          · have : n ∈ c.nodes := by cases c with | node j y lc sc ds => simp only [T.nodes]; exact List.mem_cons_of_mem _ hn
+            exact absurd (hnid ▸ hcin n this) hfrL
+    · -- look further down
+      rw [splitEdgeL_eq_map]
+      have ih : ∀ d ∈ cs, SplitOK h nw lT lH d (splitEdge h nw lT lH d) := fun d hd =>
+        splitEdge_ok h nw lT lH hlT hlH k d (by have := size_lt_of_mem hd; simp only [T.size] at hk; omega)
+          (idsOf_child_nodup hidsL hd)
+          (fun e => hfrL (List.mem_map.mpr (by
+            obtain ⟨m, hm, hme⟩ := List.mem_map.mp e
+            exact ⟨m, mem_nodesL.mpr ⟨d, hd, hm⟩, hme⟩)))
+          (lenWF_child hwf hd)
+          (fun c hc => hsum c (by simp only [T.nodes]; exact List.mem_cons_of_mem _ (mem_nodesL.mpr ⟨d, hd, hc⟩)))
+      obtain ⟨m1, m2, m3⟩ := map_permInv (splitEdge h nw lT lH) cs (fun d hd => (ih d hd).perm)
+      have mt : totalQL (cs.map (splitEdge h nw lT lH)) = totalQL cs := totalQL_map _ cs (fun d hd => (ih d hd).total)
+      by_cases hcs : cs = []
+      · subst hcs
+        refine ⟨⟨fun _ => rfl, fun _ _ => rfl, List.Perm.refl _⟩, rfl, ?_, rfl, rfl, rfl, ?_⟩
+        · simpa using hwf
+        · intro n hn hnid
+          simp only [List.map_nil, T.nodes, T.nodesL, List.mem_singleton] at hn
+          subst hn; exact absurd hnid hi
+      · have hne : cs.map (splitEdge h nw lT lH) ≠ [] := by simpa using hcs
+        refine ⟨⟨?_, ?_, ?_⟩, ?_, ?_, rfl, rfl, by simp [T.cs], ?_⟩
+        · intro a; rw [toLT_node_ne hne, toLT_node_ne hcs]; simp only [Path.down, m1]
+        · intro a b; rw [toLT_node_ne hne, toLT_node_ne hcs]; simp only [Path.dist, m2]
+        · rw [toLT_node_ne hne, toLT_node_ne hcs]; simp only [Path.leaves]; exact m3
+        · simp only [totalQ, mt]
+        · intro n hn f hf
+          simp only [T.nodes, List.mem_cons] at hn
+          rcases hn with rfl | hn
+          · exact hwf _ (mem_nodes_self _) f (by simpa [T.len] using hf)
+          · obtain ⟨d', hd', hnd'⟩ := mem_nodesL.mp hn
+            obtain ⟨d, hd, rfl⟩ := List.mem_map.mp hd'
+            exact (ih d hd).wf n hnd' f hf
+        · intro n hn hnid
+          simp only [T.nodes, List.mem_cons] at hn
+          rcases hn with rfl | hn
+          · exact absurd hnid hi
+          · obtain ⟨d', hd', hnd'⟩ := mem_nodesL.mp hn
+            obtain ⟨d, hd, rfl⟩ := List.mem_map.mp hd'
+            obtain ⟨c, hc, h1, h2⟩ := (ih d hd).fresh n hnd' hnid
+            exact ⟨c, by simp only [T.nodes]; exact List.mem_cons_of_mem _ (mem_nodesL.mpr ⟨d, hd, hc⟩), h1, h2⟩
+
+end DendroModel.C07.Aux
+
+namespace DendroModel.C07.Aux
+open DendroModel DendroModel.C07 DendroModel.C07.Path
+
+theorem containsL_append (x : Nat) (a b : List T) : containsL x (a ++ b) = (containsL x a || containsL x b) := by
+  induction a with
+  | nil => simp [containsL]
+  | cons c cs ih => simp [containsL, ih, Bool.or_assoc]
+
+theorem containsL_of_mem (x : Nat) : ∀ {cs : List T} {c : T}, c ∈ cs → contains x c = true → containsL x cs = true
+  | [], _, h, _ => by simp at h
+  | d :: ds, c, h, hc => by
+    simp only [containsL, Bool.or_eq_true]
+    rcases List.mem_cons.mp h with rfl | h
+    · exact Or.inl hc
+    · exact Or.inr (containsL_of_mem x h hc)
+
+theorem parentOfL_none_find (h q : Nat) : ∀ (cs : List T) (p : Nat), cs.find? (fun c => c.id == h) = none →
+    parentOfL h q cs = some p → ∃ d ∈ cs, parentOf h d = some p
+  | [], _, _, hp => by simp [parentOfL] at hp
+  | c :: cs, p, hf, hp => by
+    simp only [List.find?_cons] at hf
+    split at hf
+    · cases hf
+    · rename_i hb
+      simp only [parentOfL, hb, Bool.false_eq_true, if_false] at hp
+      split at hp
+      · rename_i r hr; cases hp; exact ⟨c, List.mem_cons_self .., hr⟩
+      · obtain ⟨d, hd, hdp⟩ := parentOfL_none_find h q cs p hf hp
+        exact ⟨d, List.mem_cons_of_mem _ hd, hdp⟩
+
+/-- the edge split does insert the new node when the head has a parent -/
+theorem splitEdge_contains (h nw : Nat) (lT lH : Option Frac) : ∀ (k : Nat) (t : T) (p : Nat), t.size ≤ k →
+    parentOf h t = some p → contains nw (splitEdge h nw lT lH t) = true
+  | 0, .node i x l s cs, _, hk, _ => by simp [T.size] at hk
+  | k + 1, .node i x l s cs, p, hk, hp => by
+    rw [splitEdge]
+    split
+    · simp [contains, containsL_append, containsL]
+    · rename_i hnone
+      simp only [parentOf] at hp
+      obtain ⟨d, hd, hdp⟩ := parentOfL_none_find h i cs p hnone hp
+      have ih := splitEdge_contains h nw lT lH k d p (by have := size_lt_of_mem hd; simp only [T.size] at hk; omega) hdp
+      simp only [contains, Bool.or_eq_true]
+      right
+      rw [splitEdgeL_eq_map]
+      exact containsL_of_mem nw (List.mem_map.mpr ⟨d, hd, rfl⟩) ih
+
+/-- with a fresh id, the only node carrying it after the split is the inserted one — for ANY two lengths -/
+theorem splitEdge_fresh (h nw : Nat) (lT lH : Option Frac) :
+    ∀ (k : Nat) (t : T), t.size ≤ k → nw ∉ idsOf t →
+      (splitEdge h nw lT lH t).id = t.id ∧
+      ∀ n ∈ (splitEdge h nw lT lH t).nodes, n.id = nw → ∃ c ∈ t.nodes, c.id = h ∧ n = .node nw none lT none [c.withLen lH]
+  | 0, .node i x l s cs, hk, _ => by simp [T.size] at hk
+  | k + 1, .node i x l s cs, hk, hfr => by
+    rw [idsOf_node] at hfr
+    have hi : i ≠ nw := fun e => hfr (by simp [e])
+    have hfrL : nw ∉ idsOfL cs := fun e => hfr (List.mem_cons_of_mem _ e)
+    rw [splitEdge]
+    split
+    · rename_i c hc
+      have hcmem : c ∈ cs := List.mem_of_find?_eq_some hc
+      have hcid : c.id = h := by simpa using List.find?_some hc
+      have hcnode : c ∈ T.nodes (.node i x l s cs) := by
+        simp only [T.nodes]; exact List.mem_cons_of_mem _ (mem_nodesL.mpr ⟨c, hcmem, mem_nodes_self c⟩)
+      refine ⟨rfl, ?_⟩
+      intro n hn hnid
+      simp only [T.nodes, nodesL_append, T.nodesL, List.append_nil, List.mem_cons, List.mem_append] at hn
+      rcases hn with rfl | hn | rfl | hn
+      · exact absurd hnid hi
+      · obtain ⟨d, hd, hnd'⟩ := mem_nodesL.mp hn
+        have hd' : d ∈ cs := (List.mem_filter.mp hd).1
+        have : n.id ∈ idsOfL cs := List.mem_map.mpr ⟨n, mem_nodesL.mpr ⟨d, hd', hnd'⟩, rfl⟩
+        exact absurd (hnid ▸ this) hfrL
+      · exact ⟨c, hcnode, hcid, rfl⟩
+      · have hcin : ∀ m ∈ c.nodes, m.id ∈ idsOfL cs := fun m hm =>
+          List.mem_map.mpr ⟨m, mem_nodesL.mpr ⟨c, hcmem, hm⟩, rfl⟩
+        rcases nodes_withLen c lH n hn with rfl | hn
+        · have : (c.withLen lH).id = c.id := by cases c; rfl
+          exact absurd ((this ▸ hnid) ▸ hcin c (mem_nodes_self c)) hfrL
+        · have : n ∈ c.nodes := by cases c with | node j y lc sc ds => simp only [T.nodes]; exact List.mem_cons_of_mem _ hn
+          exact absurd (hnid ▸ hcin n this) hfrL
+    · rw [splitEdgeL_eq_map]
+      refine ⟨rfl, ?_⟩
+      intro n hn hnid
+      simp only [T.nodes, List.mem_cons] at hn
+      rcases hn with rfl | hn
+      · exact absurd hnid hi
+      · obtain ⟨d', hd', hnd'⟩ := mem_nodesL.mp hn
+        obtain ⟨d, hd, rfl⟩ := List.mem_map.mp hd'
+        have ih := splitEdge_fresh h nw lT lH k d (by have := size_lt_of_mem hd; simp only [T.size] at hk; omega)
+          (fun e => hfrL (List.mem_map.mpr (by
+            obtain ⟨m, hm, hme⟩ := List.mem_map.mp e
+            exact ⟨m, mem_nodesL.mpr ⟨d, hd, hm⟩, hme⟩)))
+        obtain ⟨c, hc, h1, h2⟩ := ih.2 n hnd' hnid
+        exact ⟨c, by simp only [T.nodes]; exact List.mem_cons_of_mem _ (mem_nodesL.mpr ⟨d, hd, hc⟩), h1, h2⟩
+
+end DendroModel.C07.Aux
+
+namespace DendroModel.C07
+open DendroModel DendroModel.C07.Aux DendroModel.C07.Path
+
+theorem Keeps.trans {t u r : T} (h1 : Keeps t u) (h2 : Keeps u r) : Keeps t r :=
+  ⟨h2.ids.trans h1.ids, h2.total.trans h1.total, fun a b ha hb => by
+    rw [h2.paths a b (h1.ids.mem_iff.mpr ha) (h1.ids.mem_iff.mpr hb), h1.paths a b ha hb]⟩
+
+/-- **`reroot_at_edge(edge, length1, length2)` with `length1 + length2` = the edge's length keeps the leaves, the total
+    length and every leaf-to-leaf path length**, for both `suppress_unifurcations` settings — every tree with distinct node
+    ids, a seed with at least two children and well-formed fractions; `nw` (the id of the inserted node) fresh. -/
+theorem reroot_at_edge_invariant (s : Bool) (h nw : Nat) (l1 l2 : Option Frac) (t : T)
+    (hids : (idsOf t).Nodup) (hfresh : nw ∉ idsOf t) (h2 : 2 ≤ t.cs.length) (hwf : LenWF t) (hl1 : OWF l1) (hl2 : OWF l2)
+    (hsum : ∀ c ∈ t.nodes, c.id = h → lenQ l1 + lenQ l2 = lenQ c.len) :
+    Keeps t (rerootAtEdge s h nw l1 l2 t).1 := by
+  have S := splitEdge_ok h nw l1 l2 hl1 hl2 t.size t (Nat.le_refl _) hids hfresh hwf hsum
+  have hintu : ∀ n ∈ (splitEdge h nw l1 l2 t).nodes, n.id = nw → n.cs ≠ [] := by
+    intro n hn hid
+    obtain ⟨c, _, _, e⟩ := S.fresh n hn hid
+    rw [e]; simp [T.cs]
+  have h2u : 2 ≤ (splitEdge h nw l1 l2 t).cs.length := by rw [S.ncs]; exact h2
+  have hndu : (leafIds (splitEdge h nw l1 l2 t)).Nodup := by
+    rw [leafIds_eq_leaves]
+    exact S.perm.leaves.nodup_iff.mpr (by rw [← leafIds_eq_leaves]; exact leafIds_nodup_of_ids hids)
+  exact (keeps_of_permInv S.perm S.total).trans
+    (reseed_invariant_full none false s nw (splitEdge h nw l1 l2 t) hintu h2u S.wf hndu)
+
+/-- **clause (c): after `reroot_at_edge(edge, length1, length2)` (no suppression) the root is the inserted node, its two
+    children are the old head with edge length `length2` and, last, the old tail with edge length `length1`** — for ANY two
+    lengths, every tree, every edge whose head has a parent; `nw` fresh. -/
+theorem reroot_at_edge_position (h nw : Nat) (l1 l2 : Option Frac) (t : T) (p : Nat)
+    (hfresh : nw ∉ idsOf t) (hpar : parentOf h t = some p) :
+    (rerootAtEdge false h nw l1 l2 t).1.id = nw ∧
+    ∃ c ∈ t.nodes, c.id = h ∧ ∃ up, (rerootAtEdge false h nw l1 l2 t).1.cs = [c.withLen l2, up] ∧ up.len = l1 := by
+  have F := splitEdge_fresh h nw l1 l2 t.size t (Nat.le_refl _) hfresh
+  have hc := splitEdge_contains h nw l1 l2 t.size t p (Nat.le_refl _) hpar
+  have hne : (splitEdge h nw l1 l2 t).id ≠ nw := by
+    rw [F.1]; intro e; exact hfresh (e ▸ mem_idsOf_of_mem_nodes (mem_nodes_self t))
+  have e : (rerootAtEdge false h nw l1 l2 t).1 = invertTo nw (splitEdge h nw l1 l2 t) := by
+    simp [rerootAtEdge, rerootAtNode, reseedAt, cleanup]
+  rw [e]
+  refine ⟨(reseed_root_is_target nw _ hc).1, ?_⟩
+  obtain ⟨n, hn, hid, up, hcs, hlen⟩ := reseed_root_shape nw _ hne hc
+  have hn' : n ∈ (splitEdge h nw l1 l2 t).nodes := by
+    cases hs : splitEdge h nw l1 l2 t with
+    | node i x l s cs => rw [hs] at hn; simp only [T.nodes, T.cs] at hn ⊢; exact List.mem_cons_of_mem _ hn
+  obtain ⟨c, hcm, hch, hnN⟩ := F.2 n hn' hid
+  subst hnN
+  exact ⟨c, hcm, hch, up, by simpa [T.cs] using hcs, by simpa [T.len] using hlen⟩
+
+example : ∃ p, parentOf 4 exTree = some p ∧ 5 ∉ idsOf exTree := ⟨0, by decide, by decide⟩
+example : (rerootAtEdge false 4 5 (some ⟨1, 2⟩) (some ⟨3, 2⟩) exTree).1.id = 5 := by decide
+
+end DendroModel.C07
+
+namespace DendroModel.C07.Aux
+open DendroModel DendroModel.C07 DendroModel.C07.Path
+
+theorem midWalk_wf : ∀ (w : List (Nat × Frac × Nat)) (plen : Frac) (nd : Nat) (x : Frac),
+    plen.WF → midWalk w plen = .onEdge nd x → x.WF
+  | [], _, _, _, _, h => by simp [midWalk] at h
+  | (n0, l, par) :: rest, plen, nd, x, hp, h => by
+    simp only [midWalk] at h
+    split at h
+    · cases h; exact hp
+    · split at h
+      · exact midWalk_wf rest (plen - l) nd x (Frac.sub_wf _ _) h
+      · cases h
+
+theorem midpointOf_edge_wf (a b : Nat) (t : T) (hd : Nat) (x : Frac) (h : midpointOf a b t = .onEdge hd x) : x.WF := by
+  unfold midpointOf at h
+  repeat' (first
+    | exact midWalk_wf _ _ hd x (Frac.half_wf _) h
+    | (cases h; done)
+    | (dsimp only at h; done)
+    | dsimp only at h
+    | split at h)
+
+end DendroModel.C07.Aux
+
+namespace DendroModel.C07
+open DendroModel DendroModel.C07.Aux DendroModel.C07.Path
+
+/-- **`reroot_at_midpoint` keeps the leaves, the total length and every leaf-to-leaf path length**, both
+    `suppress_unifurcations` settings, whichever pair of leaves it was handed — every tree with distinct node ids, a seed
+    with at least two children, well-formed fractions; `nw` fresh.
+    `_partial`: one fact about the walk is assumed rather than proved (`hnode`): when the walk answers "exactly at node `nd`",
+    that node is internal (it is the parent end of an edge of the deeper leaf's root path, so it always is; deriving it from
+    `rootPath`/`upList` is what is missing).  The in-edge branch is fully proved: the two sub-edge lengths the model assigns
+    sum to the length of the split edge. -/
+theorem reroot_at_midpoint_invariant_partial (s : Bool) (a b nw : Nat) (t : T) (r : T × Option Bool)
+    (h : rerootAtMidpoint s a b nw t = some r)
+    (hids : (idsOf t).Nodup) (hfresh : nw ∉ idsOf t) (h2 : 2 ≤ t.cs.length) (hwf : LenWF t)
+    (hnode : ∀ nd, midpointOf a b t = .onNode nd → ∃ m ∈ t.nodes, m.id = nd ∧ m.cs ≠ []) :
+    Keeps t r.1 := by
+  unfold rerootAtMidpoint at h
+  split at h
+  · cases h
+  · rename_i nd hmid
+    cases h
+    obtain ⟨m, hm, hmid', hmne⟩ := hnode nd hmid
+    exact reseed_invariant_full none false s nd t (hint_of_ids hids hm hmid' hmne) h2 hwf (leafIds_nodup_of_ids hids)
+  · rename_i hd x hmid
+    split at h
+    · cases h
+    · rename_i hn hfind
+      cases h
+      have hx : x.WF := midpointOf_edge_wf a b t hd x hmid
+      obtain ⟨hnmem, hnid⟩ := find_mem hd t hn hfind
+      have hlw : (lenOr0 hn.len).WF := by
+        cases hl : hn.len with
+        | none => exact Frac.zero_wf
+        | some f => exact hwf hn hnmem f hl
+      have hsum : ∀ c ∈ t.nodes, c.id = hd → lenQ (some (lenOr0 hn.len - x)) + lenQ (some x) = lenQ c.len := by
+        intro c hc hcid
+        have : c = hn := List.inj_on_of_nodup_map hids hc hnmem (hcid.trans hnid.symm)
+        subst this
+        have e1 : lenQ (some (lenOr0 c.len - x)) = (lenOr0 c.len).toRat - x.toRat := Frac.sub_toRat hlw hx
+        have e2 : (lenOr0 c.len).toRat = lenQ c.len := by
+          cases hl : c.len with
+          | none => simp [lenOr0, lenQ, Frac.zero_toRat]
+          | some f => simp [lenOr0, lenQ, Frac.toRat]
+        rw [e1, e2]; simp [lenQ, Frac.toRat]
+      exact reroot_at_edge_invariant s hd nw (some (lenOr0 hn.len - x)) (some x) t hids hfresh h2 hwf
+        (fun f hf => by cases hf; exact Frac.sub_wf _ _) (fun f hf => by cases hf; exact hx) hsum
 
 end DendroModel.C07
